@@ -424,4 +424,225 @@ theorem look_update_prune (K : List String) (p : List String) :
             have := ih (.node vs) hwv ((find? ds k).getD (.node [])) hks
             simpa [merge, prune] using this
 
+/-! ### `_nestedDictUpdate` does not raise on partial files -/
+
+/-- the entry `(k, v)` of `u` makes the update raise, seen from the ORIGINAL mapping `ds` -/
+def clashAt (ds : List (String × Cfg α)) (e : String × Cfg α) : Bool :=
+  match e.2 with
+  | .leaf _ => false
+  | .node _ => clash ((find? ds e.1).getD (.node [])) e.2
+
+theorem clashL_nil (ds : List (String × Cfg α)) : clashL ds [] = false := by simp [clashL]
+
+theorem clashL_cons (ds : List (String × Cfg α)) (k : String) (v : Cfg α) (us) :
+    clashL ds ((k, v) :: us) = (clashAt ds (k, v) || clashL (setKey ds k (merge (find? ds k) v)) us) := by
+  cases v <;> simp [clashL, clashAt, merge]
+
+theorem find?_none_ne {es : List (String × Cfg α)} {k0 : String} (h : find? es k0 = none) :
+    ∀ e ∈ es, e.1 ≠ k0 := by
+  induction es with
+  | nil => intro e he; simp at he
+  | cons a t ih =>
+    obtain ⟨k1, v1⟩ := a
+    rw [find?_cons] at h
+    by_cases h1 : k1 = k0
+    · simp [h1] at h
+    · simp only [h1, if_false] at h
+      intro e he
+      rcases List.mem_cons.mp he with rfl | he
+      · exact h1
+      · exact ih h e he
+
+theorem any_congr_mem {β : Type} {l : List β} {p q : β → Bool} (h : ∀ a ∈ l, p a = q a) :
+    l.any p = l.any q := by
+  induction l with
+  | nil => rfl
+  | cons a t ih =>
+    simp only [List.any_cons]
+    rw [h a (List.mem_cons_self), ih (fun b hb => h b (List.mem_cons_of_mem _ hb))]
+
+theorem clashL_eq (us : List (String × Cfg α)) (hw : WFL us) (ds : List (String × Cfg α)) :
+    clashL ds us = us.any (clashAt ds) := by
+  induction us generalizing ds with
+  | nil => simp [clashL_nil]
+  | cons e es ih =>
+    obtain ⟨k0, v0⟩ := e
+    simp only [WFL] at hw
+    obtain ⟨hfresh, _, hes⟩ := hw
+    rw [clashL_cons, ih hes, List.any_cons]
+    congr 1
+    apply any_congr_mem
+    intro e he
+    have hne := find?_none_ne hfresh e he
+    simp only [clashAt, find?_setKey, if_neg (Ne.symm hne)]
+
+theorem clash_node_node (ds us : List (String × Cfg α)) : clash (.node ds) (.node us) = clashL ds us := by
+  simp [clash]
+
+theorem clash_leaf (d : Cfg α) (y : Val α) : clash d (.leaf y) = false := by
+  cases d <;> simp [clash]
+
+/-- nothing can clash with an empty mapping -/
+theorem clash_empty (v : Cfg α) : WF v → clash (.node []) v = false := by
+  refine Cfg.rec
+    (motive_1 := fun v => WF v → clash (.node []) v = false)
+    (motive_2 := fun vs => WFL vs → ∀ e ∈ vs, clashAt ([] : List (String × Cfg α)) e = false)
+    (motive_3 := fun p => WF p.2 → clash (.node []) p.2 = false)
+    ?leaf ?node ?nil ?cons ?mk v
+  case leaf => intro y _; exact clash_leaf _ y
+  case node =>
+    intro vs ih hw
+    simp only [WF] at hw
+    rw [clash_node_node, clashL_eq vs hw]
+    rw [List.any_eq_false]
+    intro e he
+    simp [ih hw e he]
+  case nil => intro _ e he; simp at he
+  case cons =>
+    intro a t iha iht hw e he
+    obtain ⟨k0, v0⟩ := a
+    simp only [WFL] at hw
+    rcases List.mem_cons.mp he with rfl | he
+    · have := iha hw.2.1
+      cases v0 with
+      | leaf y => simp [clashAt]
+      | node vs => simpa [clashAt] using this
+    · exact iht hw.2.2 e he
+  case mk => intro k v ih; exact ih
+
+theorem find?_mem_keys {es : List (String × Cfg α)} {k : String} {v : Cfg α} (h : find? es k = some v) :
+    k ∈ keys es := by
+  induction es with
+  | nil => simp at h
+  | cons a t ih =>
+    obtain ⟨k1, v1⟩ := a
+    rw [find?_cons] at h
+    by_cases h1 : k1 = k
+    · simp [keys, h1]
+    · simp only [h1, if_false] at h
+      have := ih h
+      simp only [keys, List.map_cons, List.mem_cons] at this ⊢
+      exact Or.inr this
+
+theorem allKeys_of_find? {es : List (String × Cfg α)} {k : String} {v : Cfg α} (h : find? es k = some v) :
+    ∀ x ∈ allKeys v, x ∈ allKeysL es := by
+  induction es with
+  | nil => simp at h
+  | cons a t ih =>
+    obtain ⟨k1, v1⟩ := a
+    rw [find?_cons] at h
+    intro x hx
+    simp only [allKeysL, List.mem_append]
+    by_cases h1 : k1 = k
+    · simp only [h1, if_true] at h; cases h; exact Or.inl hx
+    · simp only [h1, if_false] at h; exact Or.inr (ih h x hx)
+
+theorem mem_pruneL {K : List String} {es : List (String × Cfg α)} {k : String} {v : Cfg α}
+    (he : (k, v) ∈ es) (hk : k ∈ K) : (k, prune K v) ∈ pruneL K es := by
+  induction es with
+  | nil => simp at he
+  | cons a t ih =>
+    obtain ⟨k1, v1⟩ := a
+    simp only [pruneL]
+    rcases List.mem_cons.mp he with h | h
+    · cases h
+      simp [hk]
+    · split_ifs
+      · exact List.mem_cons_of_mem _ (ih h)
+      · exact ih h
+
+theorem subL_mem {us ds : List (String × Cfg α)} (h : SubL us ds) {k : String} {v : Cfg α}
+    (he : (k, v) ∈ us) : ∃ dv, find? ds k = some dv ∧ Sub v dv := by
+  induction us with
+  | nil => simp at he
+  | cons a t ih =>
+    obtain ⟨k1, v1⟩ := a
+    simp only [SubL] at h
+    rcases List.mem_cons.mp he with h1 | h1
+    · cases h1
+      obtain ⟨h2, _⟩ := h
+      cases hf : find? ds k with
+      | none => simp [hf] at h2
+      | some dv => exact ⟨dv, rfl, by simpa [hf] using h2⟩
+    · exact ih h.2 h1
+
+/-- **a partial file never makes `_nestedDictUpdate` raise**: if, after removing the key names
+not in `K ⊇ keys(d)`, the custom tree lies inside the key tree of `d`, there is no clash. -/
+theorem no_clash (K : List String) (u : Cfg α) :
+    WF u → ∀ d : Cfg α, (∀ x ∈ allKeys d, x ∈ K) → Sub (prune K u) d → clash d u = false := by
+  refine Cfg.rec
+    (motive_1 := fun u => WF u → ∀ d : Cfg α, (∀ x ∈ allKeys d, x ∈ K) → Sub (prune K u) d → clash d u = false)
+    (motive_2 := fun us => WFL us → ∀ ds : List (String × Cfg α), (∀ x ∈ allKeys (.node ds), x ∈ K) →
+        SubL (pruneL K us) ds → ∀ e ∈ us, clashAt ds e = false)
+    (motive_3 := fun p => WF p.2 → ∀ d : Cfg α, (∀ x ∈ allKeys d, x ∈ K) → Sub (prune K p.2) d →
+        clash d p.2 = false)
+    ?leaf ?node ?nil ?cons ?mk u
+  case leaf => intro y _ d _ _; exact clash_leaf d y
+  case node =>
+    intro us ih hw d hK hs
+    simp only [WF] at hw
+    cases d with
+    | leaf x => simp [prune, Sub] at hs
+    | node ds =>
+      simp only [prune, Sub] at hs
+      rw [clash_node_node, clashL_eq us hw, List.any_eq_false]
+      intro e he
+      simp [ih hw ds hK hs e he]
+  case nil => intro _ ds _ _ e he; simp at he
+  case cons =>
+    intro a t iha iht hw ds hK hs e he
+    obtain ⟨k0, v0⟩ := a
+    simp only [WFL] at hw
+    obtain ⟨_, hv0, ht⟩ := hw
+    have hst : SubL (pruneL K t) ds := by
+      simp only [pruneL] at hs
+      split_ifs at hs
+      · simp only [SubL] at hs; exact hs.2
+      · exact hs
+    rcases List.mem_cons.mp he with rfl | he
+    · cases v0 with
+      | leaf y => simp [clashAt]
+      | node vs =>
+        simp only [clashAt]
+        by_cases hk : k0 ∈ K
+        · have hm : (k0, prune K (Cfg.node vs)) ∈ pruneL K ((k0, Cfg.node vs) :: t) :=
+            mem_pruneL (List.mem_cons_self) hk
+          obtain ⟨dv, hf, hsv⟩ := subL_mem hs hm
+          rw [hf, Option.getD_some]
+          apply iha hv0 dv _ hsv
+          intro x hx
+          apply hK
+          simp only [allKeys, List.mem_append]
+          exact Or.inl (allKeys_of_find? hf x hx)
+        · have hnone : find? ds k0 = none := by
+            cases hf : find? ds k0 with
+            | none => rfl
+            | some dv =>
+              exfalso; apply hk; apply hK
+              simp only [allKeys, List.mem_append]
+              exact Or.inr (find?_mem_keys hf)
+          rw [hnone]
+          exact clash_empty _ hv0
+    · exact iht ht ds hK hst e he
+  case mk => intro k v ih; exact ih
+
+theorem prune_idem (K : List String) (u : Cfg α) : prune K (prune K u) = prune K u := by
+  refine Cfg.rec
+    (motive_1 := fun u => prune K (prune K u) = prune K u)
+    (motive_2 := fun us => pruneL K (pruneL K us) = pruneL K us)
+    (motive_3 := fun p => prune K (prune K p.2) = prune K p.2)
+    ?leaf ?node ?nil ?cons ?mk u
+  case leaf => intro y; simp [prune]
+  case node => intro us ih; simp only [prune, ih]
+  case nil => simp [pruneL]
+  case cons =>
+    intro a t iha iht
+    obtain ⟨k0, v0⟩ := a
+    simp only [pruneL]
+    split_ifs with h
+    · simp only [pruneL, h, if_true]
+      rw [iha, iht]
+    · exact iht
+  case mk => intro k v ih; exact ih
+
 end Snow.Cfg
